@@ -11,6 +11,7 @@ def flagOps : Handler := fun st f =>
   | "filter" :: a =>
     let r := filterForward garbleFwd garbleBools (a.map unhex)
     some (st, listOut r.1 ++ " | " ++ toHex (r.2.getD []))
+  | "chdirsplit" :: a => some (st, pairOut (splitChdir garbleBools (a.map unhex)))
   | "reject" :: a => some (st, if rejectUnknown garbleFwd garbleBools (a.map unhex) then "1" else "0")
   | "fval" :: n :: a => some (st, toHex (flagValue (unhex n) (a.map unhex)))
   | "fvals" :: n :: a => some (st, listOut (flagValues (unhex n) (a.map unhex)))
